@@ -45,6 +45,8 @@ func plans(id, tier string) (Plan, bool) {
 			jobs = append(jobs, Job{Pkg: pkgV2, Harness: "c01_small", Params: "t=" + t, Shards: pick(1, 3)})
 		}
 		jobs = append(jobs, Job{Pkg: pkgV2, Harness: "c01_small", Params: "t=0.8;replace=yes", Shards: pick(1, 3)})
+		jobs = append(jobs, Job{Pkg: pkgV2, Harness: "c01_small", Params: "t=0.8;vocab=accented", Shards: pick(1, 3)})
+		jobs = append(jobs, Job{Pkg: pkgV2, Harness: "c01_small", Params: "t=1;vocab=accented", Shards: pick(1, 3)})
 		for _, t := range ts[:pick(2, 4)] {
 			jobs = append(jobs, Job{Pkg: pkgV2, Harness: "c01_sequences", Params: "t=" + t, Shards: pick(2, 8)})
 		}
@@ -68,6 +70,7 @@ func plans(id, tier string) (Plan, bool) {
 			{Pkg: pkgV2, Harness: "c02_corpus", Params: "t=0.8;families=window;split=4", Shards: 16},
 			{Pkg: pkgV2, Harness: "c02_corpus", Params: "t=0.8;families=selfrepeat;ndocs=" + fmt.Sprint(pick(60, 431)), Shards: 16},
 			{Pkg: pkgV2, Harness: "c02_corpus", Params: "t=0.8;families=clusters;ndocs=" + fmt.Sprint(pick(60, 431)), Shards: 16},
+			{Pkg: pkgV2, Harness: "c02_corpus", Params: "t=0.8;trace=all;families=exact,truncate,partnoise,edit1;ndocs=" + fmt.Sprint(pick(24, 200)), Shards: 16},
 			{Pkg: pkgV2, Harness: "c02_corpus", Params: "t=0.8;families=boundary;ndocs=" + fmt.Sprint(pick(100, 431)), Shards: 16},
 			{Pkg: pkgV2, Harness: "c02_corpus", Params: "t=0.9;families=boundary;ndocs=" + fmt.Sprint(pick(40, 431)), Shards: 16},
 			{Pkg: pkgV2, Harness: "c02_corpus", Params: "t=0.7;families=boundary;ndocs=" + fmt.Sprint(pick(40, 431)), Shards: 16},
@@ -236,6 +239,7 @@ func plans(id, tier string) (Plan, bool) {
 		return Plan{Level: "exploration", Jobs: []Job{
 			{Pkg: pkgV2, Harness: "c12_trees", Shards: pick(4, 16)},
 			{Pkg: pkgV2, Harness: "c12_assets", Shards: 1},
+			{Pkg: pkgV2, Harness: "c12_history", Shards: pick(4, 16)},
 			{Pkg: pkgExtCLI, Harness: "c12_default", Shards: pick(8, 16)},
 		}}, true
 	case "C13":
